@@ -389,23 +389,16 @@ class Pipe<StageClass::kGenerator, CurStage, PipeNext> {
   void execute() {
     ssize_t numThreads = std::max<ssize_t>(
         1, std::min(tasks_.numPoolThreads(), StageLimits<CurStage>::limit(stage_)));
-    completion_ = std::make_unique<CompletionEventImpl>(static_cast<int>(numThreads));
+    completion_ = std::make_shared<CompletionEventImpl>(static_cast<int>(numThreads));
     for (ssize_t i = 0; i < numThreads; ++i) {
-      tasks_.schedule([this]() {
-        // RAII guard ensures the completion event is signaled even if an exception
-        // propagates out of pipeNext_.execute() (e.g. when ConcurrentTaskSet runs a
-        // downstream stage inline and it throws). Without this, wait() would hang on
-        // completion_->wait(0) because the count is never decremented.
-        struct CompletionGuard {
-          DISPENSO_INLINE ~CompletionGuard() {
-            if (completion->intrusiveStatus().fetch_sub(1, std::memory_order_acq_rel) == 1) {
-              completion->notify(0);
-            }
-          }
-          CompletionEventImpl* completion;
-        };
-        CompletionGuard cGuard{completion_.get()};
-
+      // The guard that signals the completion event is owned by the closure itself, so the event
+      // is signaled when the closure is destroyed: after it ran, when an exception propagates out
+      // of it, and also when the (canceled) task set drops it without running it.  Otherwise
+      // wait() would hang on completion_->wait(0) because the count is never decremented.  The
+      // closure may be destroyed after its task was counted as done, so it shares ownership of
+      // the event.
+      tasks_.schedule([this, cGuard = CompletionGuard(completion_)]() {
+        (void)cGuard;
         while (!tasks_.hasException()) {
           auto op = stage_();
           if (!op) {
@@ -424,8 +417,24 @@ class Pipe<StageClass::kGenerator, CurStage, PipeNext> {
   }
 
  private:
+  struct CompletionGuard {
+    explicit CompletionGuard(std::shared_ptr<CompletionEventImpl> c) : completion(std::move(c)) {}
+    CompletionGuard(CompletionGuard&& other) noexcept : completion(std::move(other.completion)) {
+      other.completion.reset();
+    }
+    CompletionGuard(const CompletionGuard&) = delete;
+    CompletionGuard& operator=(const CompletionGuard&) = delete;
+    CompletionGuard& operator=(CompletionGuard&&) = delete;
+    DISPENSO_INLINE ~CompletionGuard() {
+      if (completion && completion->intrusiveStatus().fetch_sub(1, std::memory_order_acq_rel) == 1) {
+        completion->notify(0);
+      }
+    }
+    std::shared_ptr<CompletionEventImpl> completion;
+  };
+
   ConcurrentTaskSet& tasks_;
-  std::unique_ptr<CompletionEventImpl> completion_;
+  std::shared_ptr<CompletionEventImpl> completion_;
   CurStage stage_;
   PipeNext pipeNext_;
 };
